@@ -329,17 +329,17 @@ func coverage(c *common.Ctx, r *common.Result) map[string]interface{} {
 	sort.Strings(sl)
 	sort.Strings(kl)
 	return map[string]interface{}{
-		"evaluations":         r.Counts["evaluations"],
-		"distinct_nontrivial": r.SetSize("trees"),
-		"rule":                "evaluations = distinct program texts that ParseSrc accepted with a non-empty tree (the reflected node set, the plain walk and one aborting walk per callback index were all executed on each); distinct_nontrivial = number of structurally distinct trees among them (position-free structural dump, measured with a hash set); unparseable fillings of a template are counted under unparseable_skipped and are not evaluations",
-		"walks":               r.Counts["walks"],
+		"evaluations":                        r.Counts["evaluations"],
+		"distinct_nontrivial":                r.SetSize("trees"),
+		"rule":                               "evaluations = distinct program texts that ParseSrc accepted with a non-empty tree (the reflected node set, the plain walk and one aborting walk per callback index were all executed on each); distinct_nontrivial = number of structurally distinct trees among them (position-free structural dump, measured with a hash set); unparseable fillings of a template are counted under unparseable_skipped and are not evaluations",
+		"walks":                              r.Counts["walks"],
 		"triples_parent_slot_child_distinct": len(triples),
-		"slots_distinct":      len(sl),
-		"node_kinds_distinct": len(kl),
-		"slots":               sl,
-		"node_kinds":          kl,
-		"max_nodes_per_tree":  r.GetMax("nodes_per_tree"),
-		"nesting_depth":       map[bool]int{false: 2, true: 3}[c.Thorough()],
+		"slots_distinct":                     len(sl),
+		"node_kinds_distinct":                len(kl),
+		"slots":                              sl,
+		"node_kinds":                         kl,
+		"max_nodes_per_tree":                 r.GetMax("nodes_per_tree"),
+		"nesting_depth":                      map[bool]int{false: 2, true: 3}[c.Thorough()],
 	}
 }
 
